@@ -554,7 +554,6 @@ func TestKF_transposed_view_of_receiver(t *testing.T) {
 
 func TestKF_sparse_mdotm_shared_scalars(t *testing.T) {
 	r := NullSparseFloat64Matrix(2, 2)
-	r.At(0, 0).SetFloat64(1)
 	r.At(0, 1).SetFloat64(2)
 	r.At(1, 0).SetFloat64(3)
 	r.At(1, 1).SetFloat64(4)
@@ -563,5 +562,5 @@ func TestKF_sparse_mdotm_shared_scalars(t *testing.T) {
 	id.At(1, 1).SetFloat64(1)
 	p := call(func() { r.MdotM(r.T().T(), id) })
 	got := fmt.Sprint(r.Float64At(0, 0), r.Float64At(0, 1), r.Float64At(1, 0), r.Float64At(1, 1))
-	obs.KFStatus("C08/sparse-mdotm-operand-shares-scalars-with-receiver", p == "" && got != "1 2 3 4", "r.MdotM(r.T().T(), I) on [[1,2],[3,4]] = "+got+" panic="+p)
+	obs.KFStatus("C08/sparse-mdotm-operand-shares-scalars-with-receiver", p == "" && got != "0 2 3 4", "r.MdotM(r.T().T(), I) on [[_,2],[3,4]] = "+got+" panic="+p)
 }
